@@ -26,6 +26,7 @@ META = {
         "(g) text level, through the real lxml / expat front ends (harness/textpath.py): a comment or a processing instruction inserted at EVERY character-data / between-tags position (symbolic position), "
         "every literal character of character data and of attribute values replaced by a character reference, every character-data run wrapped in CDATA, white space before every tag end, quote style, "
         "5 encodings with matching declarations; both handlers, outcome compared with the unrewritten document's",
+        "(h) text level: each of 4 white-space strings around the lexical value of every non-string leaf and attribute (ints, booleans, enums, dates, decimals, QNames, hexBinary, base64Binary) of the serialised pool documents",
         "(f) inside a selector-chosen subtree every in-scope prefix is shadowed (re-bound to a dummy URI) and replaced by a fresh one; later siblings keep using the outer binding",
     ],
     "outside": ["XInclude file loading", "text-level rewrites are applied ONE at a time to the serialised pool documents (compositions only at the event level); "
@@ -43,9 +44,9 @@ _STATE = {}
 NONSTR = {
     "basic": ["{urn:a}i"], "lists": ["{urn:a}i", "{urn:a}toks"], "nillable": ["{urn:a}m"], "parenta": ["{urn:a}v", "{urn:b}other", "local"],
     "sequential": ["a", "c"], "wrapped": ["{urn:a}i"], "holder": ["{urn:a}x"], "enums": ["{urn:a}c", "{urn:a}cs"], "nsattr": ["{urn:b}x"],
-    "temporal": ["d", "dec", "f"], "qnames": ["{urn:a}q", "{urn:a}qs"],
+    "temporal": ["d", "dec", "f"], "qnames": ["{urn:a}q", "{urn:a}qs"], "formats": ["h", "hs"],
 }
-NONSTR_ATTR = {"basic": ["b", "n"], "textattr": [], "enums": ["n"], "holder": ["z"], "defaults": ["a", "req"], "temporal": ["t"], "qnames": ["qa"]}
+NONSTR_ATTR = {"basic": ["b", "n"], "textattr": [], "enums": ["n"], "holder": ["z"], "defaults": ["a", "req"], "temporal": ["t"], "qnames": ["qa"], "formats": ["b"]}
 # values that are QNames (prefix:local), per document: element texts / attribute names
 QN_TEXT = {"qnames": ["{urn:a}q", "{urn:a}qs"], "enums": ["{urn:a}q"]}
 QN_ATTR = {"qnames": ["qa"]}
@@ -307,6 +308,59 @@ def _text_encoding(doc, e):
     return out
 
 
+_PADS = [" ", "\n", "\t", "\r\n  "]
+
+
+def _pad_spots(doc):
+    """(start, end) spans of the lexical values of NON-string leaves and attributes of the serialised document (white space around them is insignificant)."""
+    import re
+
+    _cls, text = textpath.doc_text(doc)
+    spots = []
+    for q in NONSTR.get(doc, []):
+        local = q.split("}")[-1]
+        for m in re.finditer(r"<(?:[A-Za-z0-9_]+:)?%s(?:\s[^>]*)?>([^<]+)</" % re.escape(local), text):
+            spots.append(m.span(1))
+    for a in NONSTR_ATTR.get(doc, []):
+        for m in re.finditer(r"\s(?:[A-Za-z0-9_]+:)?%s=\"([^\"]*)\"" % re.escape(a), text):
+            spots.append(m.span(1))
+    return sorted(set(spots))
+
+
+_PADN = {}
+
+
+def _pad_n():
+    if _DOC not in _PADN:
+        with untraced():
+            _PADN[_DOC] = len(_pad_spots(_DOC))
+    return _PADN[_DOC]
+
+
+def _text_pad(doc, k, w):
+    cls, text = textpath.doc_text(doc)
+    lo, hi = _pad_spots(doc)[k]
+    new = text[:lo] + _PADS[w] + text[lo:hi] + _PADS[w] + text[hi:]
+    out = {"ok": True, "document": new[:400]}
+    for h in ("lxml", "native"):
+        base, got = _outcome(text, cls, h), _outcome(new, cls, h)
+        if base != got:
+            out["ok"] = False
+            out[h] = {"original": repr(base)[:300], "padded": repr(got)[:300]}
+    return out
+
+
+def text_pad(k: int, w: int) -> bool:
+    """
+    pre: 0 <= k < _pad_n()
+    pre: 0 <= w < len(_PADS)
+    post: _
+    """
+    ck, cw = concretize(k, max(1, _pad_n())), concretize(w, len(_PADS))
+    with untraced():
+        return result(_text_pad(_DOC, ck, cw)["ok"])
+
+
 def text_encoding(e: int) -> bool:
     """
     pre: 0 <= e < len(textpath.ENCODINGS)
@@ -318,7 +372,7 @@ def text_encoding(e: int) -> bool:
 
 
 PRE = {}
-EXPLAIN = {"text_rewrite": lambda k: _text_rewrite(_DOC, PART.get("kind", "comment"), k), "text_encoding": lambda e: _text_encoding(_DOC, e)}
+EXPLAIN = {"text_pad": lambda k, w: _text_pad(_DOC, k, w), "text_rewrite": lambda k: _text_rewrite(_DOC, PART.get("kind", "comment"), k), "text_encoding": lambda e: _text_encoding(_DOC, e)}
 
 
 def plan(tier):
@@ -331,6 +385,9 @@ def plan(tier):
                 continue  # rewrite kind not applicable to this document (would be a vacuous harness)
             jobs.append(Job("text_rewrite", {"doc": doc, "kind": kind}, 300, 30, note="real lxml / expat front ends; position symbolic"))
         jobs.append(Job("text_encoding", {"doc": doc}, 120, 30, note="real lxml / expat front ends"))
+    for doc in sorted(set(NONSTR) | set(NONSTR_ATTR)):
+        if doc in mutate.DOCS and _pad_spots(doc):
+            jobs.append(Job("text_pad", {"doc": doc}, 120, 30, note="real front ends: white space around the lexical value of every non-string leaf / attribute"))
     return jobs
 
 
